@@ -1,4 +1,5 @@
 pub mod bld;
+pub mod dv;
 pub mod gen;
 pub mod jv;
 pub mod proj;
